@@ -1234,7 +1234,9 @@ def typearg_cases(jobs):
         base = _mk_classes(w["elbase"])
         builtin = w.get("elbuiltin", {})
         for k, name in builtin.items():
-            base[int(k)] = {"list": list, "dict": dict, "str": str, "int": int, "tuple": tuple}[name]
+            import collections.abc
+
+            base[int(k)] = {"list": list, "dict": dict, "str": str, "int": int, "tuple": tuple, "Sequence": collections.abc.Sequence}[name]
 
         def real(e):
             if e["k"] == "cls":
